@@ -46,6 +46,26 @@ def check(pid, engine, category, text, note, technique, design_ref):
 
 exec(open(os.path.join(HERE, 'tools', 'manifest_checks.py')).read())  # pylint: disable=exec-used
 
+_LATER = {
+    'C02': ' Further complete sweeps: extreme 2/3/4/8-byte integers at every offset, every enum name replaced by every '
+           'other name of its enumeration, big-integer / coordinate boundary fills of every length-prefixed span, every '
+           'byte-string constant of the library at every offset.',
+    'C03': ' A receive buffer object refilled in place must give what a fresh copy of its content gives; a unit accepted '
+           'alone is accepted whatever follows it (tens of KiB included).',
+    'C04': ' Equal-length handshake twins, one message per record, units the library composes but does not accept whole.',
+    'C12': ' Position operands of wrong type or absurd size are injected as faults.',
+    'C13': ' Complete sweeps: every accepted input of every class observed around compose(); every class under a fixed '
+           'series of caller edits; one observation history per class.',
+    'C14': ' Complete sweeps over accepted inputs: every length-prefixed value / token replaced by other alphabets and '
+           'boundary values, every single octet overwritten; whatever is still accepted must serialise well-formed.',
+    'C19': ' Nesting shapes (a seed nested in its own recursion point), length-prefixed item shapes, depth growth and '
+           'repeat-after-sweep clauses.',
+    'C11': ' Flag words are parsed again after the earlier result was edited; fixed-length mpints in all byte orders.',
+}
+for _pid, _more in _LATER.items():
+    if _pid in CHECKS:
+        CHECKS[_pid]['level_claimed']['text'] += _more
+
 for _entry in CHECKS.values():
     _entry['level_claimed']['text'] += (
         ' Every check also runs seeded histories of its own runs: each run alone in a pristine forked process vs. '
